@@ -24,10 +24,14 @@ LEVEL = "fault_enumeration"
 RULE = ("part A: {h1, h1tls, h2, h2pk, fwd} x {GET, POST streamed} x {1, 3 concurrent callers} x retries in {0,2} x "
         "flavours x (every network op x every documented fault kind); part B: HTTP/2 with 3 concurrent requests x "
         "GOAWAY sent at (head|end of request n) x last-stream-id in {0, previous, this, all} x {GET, POST bytes, POST "
-        "iterator, POST 150 kB (beyond the initial window, so the uploader itself reads the GOAWAY)} x seeded op latencies; distinct+non-trivial = (type, shape, callers, retries, flavour, fault kind, op kind, trace phase) "
+        "iterator, POST 150 kB (beyond the initial window, so the uploader itself reads the GOAWAY)} x seeded op latencies; "
+        "part C: HTTP/1.1 over {direct, TLS, maybe-h2, tunnel, SOCKS}: while a streamed POST body is still being written the "
+        "server {answers early, answers early and closes, closes without answering} x new / kept-alive connection x write "
+        "latency x retries; distinct+non-trivial = (type, shape, callers, retries, flavour, fault kind, op kind, trace phase) "
         "resp. (when, n, last, shape, flavour)")
 ASSUMPTIONS = ["a call's bytes are attributed by the contextvar set in the caller's task/thread; HTTP/2 heads by the "
-               "decoded X-Token", "request bytes 'started' = fault fell in a send_request_* / receive_response_* trace phase"]
+               "decoded X-Token", "a part C run is cut off after 3000 network operations (a request re-sent without end) "
+               "and then judged by the same oracles", "request bytes 'started' = fault fell in a send_request_* / receive_response_* trace phase"]
 REQUIRED = ["runs", "faults_fired", "oracle_heads_at_most_once", "oracle_no_resend_after_failure", "goaway_runs",
             "goaway_refused_streams", "goaway_resent_ok"]
 
@@ -73,6 +77,7 @@ async def run_many(flavor, ctype, shape, n, retries, fault=None, h2_script=None,
         for o in sc.origins:
             o.h2_script = dict(h2_script)
     net = sc.net
+    net.op_budget = 50000
     info = {"fault_seq": None, "fault_call": None, "fault_phase": None}
     if fault is not None:
         net.faults[fault[0]] = fault[1]
@@ -260,8 +265,73 @@ def run_part_b(case):
     return {"viol": viol, "counters": cnt, "sigs": sorted(sigs), "sample": sample or None}
 
 
+def run_part_c(case):
+    """HTTP/1.1: the server speaks (or hangs up) while the request body is still being written. Whatever the outcome,
+    the request is on the wire already: one head per call, no second connection for it."""
+    flavor, ctype, mode = case["flavor"], case["ctype"], case["mode"]
+    viol = []
+    cnt = {"runs": 0, "faults_fired": 0, "oracle_heads_at_most_once": 0, "oracle_no_resend_after_failure": 0,
+           "failed_after_bytes_sent": 0, "goaway_runs": 0, "goaway_refused_streams": 0, "goaway_resent_ok": 0,
+           "server_spoke_during_upload": 0}
+    sigs = set()
+    sample = {}
+
+    def v(key, what, detail):
+        if not any(x["key"] == key for x in viol):
+            viol.append({"key": key, "what": what, "detail": detail})
+
+    async def main():
+        for retries in (0, 2):
+            for wlat in (0.0, 0.01):
+                for warm in (False, True):
+                    sc = Sc(ctype, flavor, max_connections=3, resp_delay=0.0, retries=retries)
+                    sc.net.latency = lambda kind, idx, wlat=wlat: wlat if kind == "write" else 0.0
+                    sc.net.op_budget = 3000   # a request re-sent for ever ends here, and is judged by the oracles below
+                    if warm:
+                        # the connection is a kept-alive one: a server that speaks first looks like one that hung up
+                        CALL.set("warm")
+                        await guarded(flavor, lambda: sc.api.request("GET", sc.url(), headers=[("X-Token", "warm")]))
+                    for o in sc.origins:
+                        o.early = True
+                        orig = o.responder
+
+                        def responder(req, o_, orig=orig):
+                            resp = orig(req, o_)
+                            if mode == "early-close":
+                                resp.conn_close = True
+                            elif mode == "close-no-response":
+                                resp.truncate = 0
+                            return resp
+                        o.responder = responder
+                    out = await guarded(flavor, lambda: one_call(sc, "post-iter", "c0"))
+                    cnt["runs"] += 1
+                    ctx = {"case": case, "retries": retries, "write_latency": wlat, "warm": warm}
+                    heads = judge_common(sc, {"c0": out}, cnt, v, ctx)
+                    if heads.get("c0"):
+                        cnt["server_spoke_during_upload"] += 1
+                        sigs.add(f"C|{ctype}|{mode}|{flavor}|r{retries}|w{wlat}|warm{warm}|{out.kind}")
+                    if out.kind == "hang":
+                        v(f"hang:server-spoke-during-upload:{mode}", f"{out!r}", ctx)
+                    connects = [e for e in sc.net.events if e["ev"] == "connect.call" and e["call"] == "c0"]
+                    cnt["oracle_no_resend_after_failure"] += 1
+                    if len(connects) > (0 if warm else 1) + (1 if TYPE_CLASS[ctype] == "x" else 0):
+                        v(f"retried-after-bytes-sent:server-spoke-during-upload:{mode}",
+                          f"call c0 opened {len(connects)} connections although its request had reached the server "
+                          f"(outcome {out!r})", ctx)
+                    if mode == "close-no-response":
+                        cnt["failed_after_bytes_sent"] += 1
+                        if out.kind == "ok":
+                            v(f"failure-after-bytes-sent-not-reported:server-closed-during-upload", f"{out!r}", ctx)
+                    if not sample:
+                        sample.update({"case": case, "outcome": repr(out), "heads": len(heads.get("c0", []))})
+                    await guarded(flavor, sc.api.close_pool)
+
+    run_flavor(flavor, None, main, seed=case["seed"])
+    return {"viol": viol, "counters": cnt, "sigs": sorted(sigs), "sample": sample or None}
+
+
 def run_case(case):
-    return run_part_a(case) if case["part"] == "A" else run_part_b(case)
+    return {"A": run_part_a, "B": run_part_b, "C": run_part_c}[case["part"]](case)
 
 
 def plan(tier, seed):
@@ -284,5 +354,10 @@ def plan(tier, seed):
                 cases.append({"part": "B", "ctype": ctype, "shape": shape, "flavor": flavor, "tier": tier,
                               "seed": r.randrange(1 << 30),
                               "lat_seeds": [None, 1, 2] if tier == "quick" else [None] + list(range(1, 12))})
+    for ctype in ("h1", "h1tls", "maybe-h2", "tun", "socks"):
+        for mode in ("early", "early-close", "close-no-response"):
+            for flavor in ("asyncio", "trio", "sync"):
+                cases.append({"part": "C", "ctype": ctype, "mode": mode, "flavor": flavor, "tier": tier,
+                              "seed": r.randrange(1 << 30)})
     cases.sort(key=lambda c: (c["part"] == "A", -c.get("n", 3)))
     return cases
